@@ -3,6 +3,11 @@
 package syncx
 
 // White-box accessors for the C14 correspondence harness (overlaid on a scratch copy only).
+// zz_verif_segment.go.stub has the same exported API without touching unexported state; the check
+// falls back to it (spec mode only) when this file no longer compiles against an edited tree.
+
+// VerifWhiteBox reports whether VerifIndex / VerifTokens really observe the objects.
+func VerifWhiteBox() bool { return true }
 
 // VerifIndex reports which element of s.locks the real getLock selects for key
 // (by pointer identity, so whatever getLock/hash do is what is observed); -1 if none.
